@@ -338,7 +338,8 @@ func (store *fileStore) SaveMessage(seqNum int, msg []byte) error {
 	if err != nil {
 		return fmt.Errorf("unable to seek to end of file: %s: %s", store.bodyFname, err.Error())
 	}
-	if _, err := store.headerFile.Seek(0, io.SeekEnd); err != nil {
+	headerEnd, err := store.headerFile.Seek(0, io.SeekEnd)
+	if err != nil {
 		return fmt.Errorf("unable to seek to end of file: %s: %s", store.headerFname, err.Error())
 	}
 
@@ -354,10 +355,14 @@ func (store *fileStore) SaveMessage(seqNum int, msg []byte) error {
 	}
 
 	if _, err := fmt.Fprintf(store.headerFile, "%d,%d,%d\n", seqNum, offset, len(msg)); err != nil {
+		// Leave no part of the index line behind: the next line would be glued to it.
+		_ = store.headerFile.Truncate(headerEnd)
 		return fmt.Errorf("unable to write to file: %s: %s", store.headerFname, err.Error())
 	}
 	if store.fileSync {
 		if err := store.headerFile.Sync(); err != nil {
+			// The caller is told the message was not saved, so it must not stay in the index.
+			_ = store.headerFile.Truncate(headerEnd)
 			return fmt.Errorf("unable to flush file: %s: %s", store.headerFname, err.Error())
 		}
 	}
